@@ -1090,7 +1090,41 @@ pub fn check_history(h: &History) -> CaseResult {
     if d != m.dump() {
         return Err(classify_reopen(&d, &m, &m, false, "reopen after post-recovery writes"));
     }
+    // A saved copy is a persistent database too: it must reopen to the same state and hand out fresh ids.
+    // (`save` logs the entities in enumeration order, not in id order, so this also drives recovery with a log whose
+    // create records are not ascending.) Only when the engine's own dump agrees with the model (no open finding met).
+    let path2 = dir.path().join("saved");
+    match guard("save", || db.save(&path2))? {
+        Ok(()) => {}
+        Err(e) => return fail("c05/save-error", format!("{e}")),
+    }
     close_db(db, End::Drop)?;
+    {
+        let db2 = open_db(&path2, Mode::Default)?;
+        let d2 = guard("dump", || dump_db(&db2))?;
+        if d2 != m.dump() {
+            return fail("c05/saved-copy-reopen-mismatch", format!("saved copy reopened: {}", diff_dumps(&d2, &m.dump())));
+        }
+        let mut m2 = m.clone();
+        {
+            let mut models: [&mut Model; 1] = [&mut m2];
+            for _ in 0..2 {
+                apply_op(&db2, &mut models, &Op::CreateNode { labels: vec![1] }, &mut fx)?;
+            }
+            apply_op(&db2, &mut models, &Op::CreateEdge { s: T { i: 0, dead: false }, d: T { i: 65535, dead: false }, ty: 1 }, &mut fx)?;
+        }
+        let live2 = guard("dump", || dump_db(&db2))?;
+        if live2 != m2.dump() {
+            return fail("c05/live-vs-model", format!("saved copy after new writes: {}", diff_dumps(&live2, &m2.dump())));
+        }
+        close_db(db2, End::Close)?;
+        let db3 = open_db(&path2, Mode::Default)?;
+        let d3 = guard("dump", || dump_db(&db3))?;
+        if d3 != m2.dump() {
+            return fail("c05/saved-copy-reopen-mismatch", format!("saved copy, second reopen: {}", diff_dumps(&d3, &m2.dump())));
+        }
+        close_db(db3, End::Drop)?;
+    }
 
     let class = if any_stmt {
         "with-statements"
